@@ -3,6 +3,7 @@ package props
 import (
 	"encoding/json"
 	"fmt"
+	"math"
 	"strings"
 	"time"
 
@@ -72,7 +73,11 @@ func c11Key(i int) (object.Object, gt.Val) {
 		return object.NewArray([]object.Object{object.Integer{Value: 1}, object.Integer{Value: 2}, object.Integer{Value: 3}}),
 			&gt.Arr{E: []gt.Val{int64(1), int64(2), int64(3)}}
 	}
-	// big universe: strings
+	// big universe: integers further apart than 2^63 (a comparison by subtraction wraps), then strings
+	far := []int64{math.MinInt64, -7000000000000000000, -5000000000000000000, -2, 5000000000000000000, 7000000000000000000, math.MaxInt64}
+	if i-9 < len(far) {
+		return object.Integer{Value: far[i-9]}, far[i-9]
+	}
 	s := fmt.Sprintf("key%02d", i)
 	return object.String{Value: s}, s
 }
